@@ -333,7 +333,8 @@ def write_if_changed(path, text):
 
 
 def main():
-    status, defs = {}, []
+    from elab_guard import guard
+    status, items = {}, []
     try:
         src = open(os.path.join(REPO, "src/repr/var_order.rs")).read()
     except OSError as e:
@@ -341,17 +342,19 @@ def main():
         err = str(e)
     for rust, lean, kind, model in FUNS:
         key = "VarOrder::" + rust
+        alias = "-- TRANSLATOR ROUTE NOT AVAILABLE for %s\nabbrev %s := @_root_.%s\n" % (rust, lean, model)
         try:
             if src is None:
                 raise Untranslatable(err)
             binder, ty, body = translate_fn(src, rust, kind)
-            defs.append("def %s %s: %s :=\n  %s\n" % (lean, binder, ty, body))
+            items.append({"key": key, "text": "def %s %s: %s :=\n  %s\n" % (lean, binder, ty, body), "alias": alias})
             status[key] = "translated"
         except (Untranslatable, KeyError, IndexError, ValueError, TypeError) as e:
-            defs.append("-- TRANSLATOR ROUTE NOT AVAILABLE for %s: %s\nabbrev %s := @_root_.%s\n"
-                        % (rust, str(e).replace("\n", " "), lean, model))
-            status[key] = "UNTRANSLATED (translator route not available, tied by correspondence only): %s" % e
-    write_if_changed(OUT, HEADER + "\n".join(defs) + "\nend Gen.Orders\n")
+            items.append({"key": key, "text": alias, "alias": alias})
+            status[key] = "UNTRANSLATED (translator route not available, tied by correspondence only): %s" % str(e).replace("\n", " ")
+    fell = guard(OUT, HEADER, items, "end Gen.Orders\n")
+    for k, why in fell.items():
+        status[k] = "UNTRANSLATED (translator route not available, tied by correspondence only): %s" % why
     return status
 
 
